@@ -222,7 +222,7 @@ def run(ck, F):
             what.append('no path handles a non-empty tree')
         ck.check(R6, inst, not what, f'{dt[0]["id"]}: ' + '; '.join(what), loc=dt[0]['loc'], fn=dt[0]['id'])
     if not ntree:
-        raise AnalysisBroken('no release traversal of rb_tree::container evaluated')
+        ck.fail(R6, 'rb_tree::container', 'no instantiation of rb_tree::container has a user-provided destructor: the nodes of a table are never released', loc=places_loc(F))
 
     # the pool chain after an allocation: nothing that was reachable is lost, everything new is reachable
     R7 = ck.rule('C19.chain-preserved', 'on every path of arena::allocate (and of the constructor) the chain mem -> previous -> ... '
